@@ -141,3 +141,33 @@ Example rt_unprintable :
   parse_all (to_str_list [mkT [("x", 1%Q)] r3_c; mkT [("x", (-(1))%Q)] r3_c]) = inr SyntaxErr /\
   to_str_list [mkT [("x", 1%Q)] r3_c; mkT [("x", (-(1))%Q)] r3_c] = ["|x| = 0"].
 Proof. vm_compute. repeat split; reflexivity. Qed.
+
+(* ---------------------------------------------------------------- compound contracts: the hypotheses of
+   props/C10.v's C10_compound_roundtrip are met by the real printer / parser pair *)
+Require Import Json PyJson Compound JsonCompound JsonCompoundGen JsonCompoundFacts.
+(* the relation "read back with the printed meaning" of C10_string_roundtrip, alternative by alternative *)
+Definition reads_as_printed (ts ts' : list pterm) : Prop :=
+  forall rho, sat_list rho ts' <-> Forall (item_rounded_den rho) (items ts).
+(* to_dict with the printer of model/Printer.v, then from_strings with polyhedral_termlist_from_string of
+   model/ParseAll.v (both as translated on this run): every alternative of the assumptions and of the guarantees is
+   handed to the constructors, in order, as a term list holding exactly where its printed reading holds *)
+Theorem C10_compound_string_roundtrip :
+  forall (pstr : json -> string) (nested_new : nested -> bool -> M nested)
+         (compound_new : nested -> nested -> list var -> list var -> M compound) (k : compound),
+  Forall (fun ts => printable ts /\ vars_valid ts) (k_a k) ->
+  Forall (fun ts => printable ts /\ vars_valid ts) (k_g k) ->
+  let d := PolyhedralIoContractCompound_to_dict to_str_list k in
+  exists a' g',
+    Forall2 reads_as_printed (k_a k) a' /\ Forall2 reads_as_printed (k_g k) g' /\
+    (_ <- call_kwargs ["assumptions"; "guarantees"; "input_vars"; "output_vars"] [] d ;;
+     PolyhedralIoContractCompound_from_strings pstr (parse_json_with parse_terms) nested_new compound_new
+       (kwarg "assumptions" d) (kwarg "guarantees" d) (kwarg "input_vars" d) (kwarg "output_vars" d))
+    = (na <- nested_new a' true ;; ng <- nested_new g' false ;;
+       compound_new na ng (k_inputvars k) (k_outputvars k)).
+Proof.
+  intros pstr nn cn k.
+  exact (compound_roundtrip_code to_str_list parse_terms (parse_json_with parse_terms)
+           (fun ts => printable ts /\ vars_valid ts) reads_as_printed (fun s => eq_refl)
+           (fun ts H => parse_all_printed_rounded ts (proj1 H) (proj2 H)) pstr nn cn k).
+Qed.
+Print Assumptions C10_compound_string_roundtrip.
